@@ -65,7 +65,7 @@ pub fn run(id: &str, tier: Tier, seed: u64) -> Option<Report> {
     let mut notes = serde_json::Map::new();
     for f in known {
         let Some(path) = f.replay.as_ref().filter(|p| p.ends_with(".json")) else { continue };
-        let full = format!("{}/{}", crate::runner::VERIF_DIR, path);
+        let full = format!("{}/{}", crate::runner::verif_dir(), path);
         let Ok(text) = std::fs::read_to_string(&full) else { continue };
         let Ok(doc) = serde_json::from_str::<serde_json::Value>(&text) else { continue };
         let Ok(tape) = serde_json::from_value::<Vec<u16>>(doc["tape"].clone()) else { continue };
